@@ -71,7 +71,7 @@ def _source(draw, big):
         else:
             mesh = draw(meshgen.solid_mesh_st())
         mesh.pop("centers", None)
-    return {"kind": kind, "mesh": mesh}
+    return {"kind": kind, "mesh": mesh, "radius": draw(st.sampled_from([1.0, 1.0, 2.5, 6371.0]))}
 
 
 @st.composite
@@ -207,13 +207,13 @@ def _build_source(src):
         return build.grid_from_mesh(mesh, face_lon=c[:, 0].copy(), face_lat=c[:, 1].copy())
     if src["kind"] == "vertices-xyz":
         INT_DTYPE, FILL = build.consts()
-        xyz = meshgen.mesh_xyz(mesh)
+        xyz = meshgen.mesh_xyz(mesh) * src.get("radius", 1.0)  # Cartesian sources need not be on the unit sphere
         width = max(len(f) for f in mesh["faces"])
         arr = np.full((len(mesh["faces"]), width, 3), float(FILL))
         for i, f in enumerate(mesh["faces"]):
             arr[i, : len(f)] = [xyz[k] for k in f]
         return ux.Grid.from_face_vertices(arr, latlon=False)
-    ds, _ = writers.mpas_dataset(mesh)
+    ds, _ = writers.mpas_dataset(mesh, radius=src.get("radius", 1.0))
     return ux.open_grid(ds)
 
 
@@ -390,6 +390,8 @@ def _apply(g, o):
 
 
 INVENTORY = ("dims", "sizes", "coordinates", "connectivity")
+FINAL_SWEEP = ["node_x", "node_y", "node_z", "node_lon", "node_lat", "face_node_connectivity", "n_nodes_per_face", "face_lon", "face_lat",
+               "face_x", "face_z", "edge_node_connectivity", "edge_lon", "edge_x", "face_areas", "edge_face_distances", "edge_node_distances"]
 
 
 def _inv(n):
@@ -497,6 +499,23 @@ def run_case(case, ctx):
             history = history[-6:]
         if len(record) < 14:
             record.append(_jsonable(got))
+    # ---- "followed by any observation": a final sweep over the basic attributes of every grid of the pool,
+    # each compared with its value on a grid built afresh for that one read
+    for gi, g in enumerate(grids):
+        for name in FINAL_SWEEP:
+            o = {"op": "attr", "name": name, "g": gi}
+            got = _apply_or_raise(g, o)
+            exp = _apply_or_raise(_build_source(case["sources"][gi]), o)
+            ctx.ev("equals_fresh")
+            if got[0] == "raises" or exp[0] == "raises":
+                if got != exp:
+                    fails.append(Failure("equals_fresh", f"attr:{name}:{case['sources'][gi]['kind']}:final-sweep:{jit}", "raises-only-on-one", f"final sweep: {name}: this grid -> {got[:2]}, fresh grid -> {exp[:2]}; last operations {history}"))
+                    return fails
+                continue
+            r = _diff(got, exp, name)
+            if r:
+                fails.append(Failure("equals_fresh", f"attr:{name}:{case['sources'][gi]['kind']}:final-sweep:{jit}", "differs-from-fresh", f"final sweep on grid {gi} after {[o_['op'] + (':' + o_.get('name', '')) for o_ in case['ops']]}: {r}"))
+                return fails
     ctx.ev("module_globals_unchanged")
     now = _snap_modules()
     for k, v in _SNAP.items():
